@@ -172,6 +172,10 @@ def run(rep, ctx):
     with rep.guard("R07.5"):
         from .. import symrules as _SR
         _SR.reset_covers_caches(rep, ctx.model, "R07.5")
+    rep.rule("R07.6", "the chosen normalizer is applied to the positions in the convention of the table (letters and positions stay in step)")
+    with rep.guard("R07.6"):
+        from . import c05 as _c05
+        _c05.r05_3(rep, ctx.model, "R07.6")
     rep.floor("R07.1", 6000)
     rep.floor("R07.2", 4)
     rep.floor("R07.3", 7)
